@@ -39,14 +39,15 @@ type Field struct {
 }
 
 type TypeDef struct {
-	Name    string
-	Kind    Kind
-	Fields  []*Field
-	Impl    []string // interfaces implemented (besides Node)
-	Members []string // union members
-	Values  []string // enum values
-	HasID   bool     // interface declares id: ID!
-	Descr   string
+	Name     string
+	Kind     Kind
+	Fields   []*Field
+	Impl     []string // interfaces implemented (besides Node)
+	Members  []string // union members
+	Values   []string // enum values
+	HasID    bool     // interface declares id: ID!
+	ImplNode bool     // interface is declared `implements Node`
+	Descr    string
 }
 
 // Profile tunes the generator.
@@ -77,6 +78,9 @@ type Profile struct {
 	ScalarArgs     bool    // fields may take an argument of the custom scalar type (meta: Stamp)
 	ValueWithID    float64 // probability that a value (non-Node) type carries an `id: ID!` field
 	SpreadEnum     bool    // services declare different subsets of an enum's values (merge-only universes)
+	AbstractRoots  bool    // interfaces and unions have at least two members where possible, and each gets a root field returning a list of it
+	CommandOnly    float64 // probability of an extra service that has mutations and entity fields but no Query field besides node
+	IfaceImplNode  float64 // probability that an interface over entities is declared `implements Node` (merge-only universes)
 }
 
 func DefaultProfile() Profile {
@@ -192,10 +196,16 @@ func NewUniverse(r *rand.Rand, p Profile) *Universe {
 			pool = vals
 		}
 		nm := 1 + r.Intn(len(pool))
+		if p.AbstractRoots && nm < 2 && len(pool) >= 2 {
+			nm = 2
+		}
 		perm := r.Perm(len(pool))
 		for _, j := range perm[:nm] {
 			m := u.byName[pool[j]]
 			m.Impl = append(m.Impl, it.Name)
+		}
+		if it.HasID && p.IfaceImplNode > 0 && r.Float64() < p.IfaceImplNode {
+			it.ImplNode = true
 		}
 		ifaces = append(ifaces, it.Name)
 		add(it)
@@ -218,6 +228,9 @@ func NewUniverse(r *rand.Rand, p Profile) *Universe {
 			pool = vals
 		}
 		nm := 1 + r.Intn(len(pool))
+		if p.AbstractRoots && nm < 2 && len(pool) >= 2 {
+			nm = 2
+		}
 		perm := r.Perm(len(pool))
 		for _, j := range perm[:nm] {
 			ut.Members = append(ut.Members, pool[j])
@@ -427,6 +440,11 @@ func NewUniverse(r *rand.Rand, p Profile) *Universe {
 	}
 	qUsed := map[string]bool{"node": true}
 	u.Query = append(mkRoots(between(r, p.RootFields), rootNames, qUsed), splitRoots...)
+	if p.AbstractRoots {
+		for _, n := range append(append([]string{}, ifaces...), unions...) {
+			u.Query = append(u.Query, &Field{Name: "every" + n, Type: "[" + n + "]", Owner: r.Intn(u.K)})
+		}
+	}
 	// every service owns at least one Query field
 	for s := 0; s < u.K; s++ {
 		has := false
@@ -465,6 +483,16 @@ func NewUniverse(r *rand.Rand, p Profile) *Universe {
 			}
 		}
 	}
+	cmdOnly := -1
+	if p.CommandOnly > 0 && p.Mutations && len(ents) > 0 && r.Float64() < p.CommandOnly {
+		// a command service: it takes mutations and extends an entity, its Query type is the Relay entry point alone
+		cmdOnly = u.K
+		u.K++
+		ent := pick(r, ents)
+		u.Mutation = append(u.Mutation, &Field{Name: "record", Type: ent, Args: []Arg{{Name: "note", Type: "String"}}, Owner: cmdOnly})
+		et := u.byName[ent]
+		et.Fields = append(et.Fields, &Field{Name: "audit", Type: "String", Owner: cmdOnly})
+	}
 	if p.Uploads {
 		add(&TypeDef{Name: "FileIn", Kind: KInput, Fields: []*Field{
 			{Name: "f", Type: "Upload", Owner: -1}, {Name: "fs", Type: "[Upload]", Owner: -1}, {Name: "note", Type: "String", Owner: -1},
@@ -494,6 +522,9 @@ func NewUniverse(r *rand.Rand, p Profile) *Universe {
 	u.DropNode = make([]bool, u.K)
 	for s := range u.DropNode {
 		u.DropNode[s] = r.Float64() < p.DropNode
+	}
+	if cmdOnly >= 0 {
+		u.DropNode[cmdOnly] = false
 	}
 	if p.Directives {
 		u.DirDefs = []string{
@@ -777,7 +808,11 @@ func (u *Universe) SDL(svc int) string {
 			}
 			b.WriteString("}\n")
 		case KInterface:
-			b.WriteString("interface " + t.Name + " {\n")
+			b.WriteString("interface " + t.Name)
+			if t.ImplNode && hasEntity {
+				b.WriteString(" implements Node")
+			}
+			b.WriteString(" {\n")
 			if t.HasID {
 				b.WriteString("  id: ID!\n")
 			}
